@@ -7,6 +7,7 @@ package meta
 
 import (
 	"fmt"
+	"runtime"
 	"sync"
 	"testing"
 	"time"
@@ -26,11 +27,18 @@ func TestVerifC19MetaStore(t *testing.T) {
 		scratch := vReplica(true)
 		var log [][]byte
 		var kinds []string
-		warm := []string{"createDataNode", "createDataNode", "createMetaNode", "createDB", "createRP", "createSG"}
+		warm := []string{"createDataNode", "createDataNode", "createMetaNode", "createDB", "createRP", "createSG", "createUser", "createUser", "setPriv", "setPriv"}
+		// a tail of commands that change nested values (privilege maps, owner lists, policies) of objects that
+		// already exist: these are the ones a shallow copy-on-write would apply in place under the readers
+		inPlace := []string{"setPriv", "setPriv", "setPriv", "copyOwner", "removeOwner", "updateRP", "setAdmin", "createSG", "truncate", "updateUser", "createDB"}
+		tail := rapid.IntRange(0, 120).Draw(rt, "inPlaceTail")
+		n += len(warm) + tail
 		for i := 0; i < n; i++ {
 			var c vCommand
 			if i < len(warm) {
 				c = vDrawCommandOfKind(rt, scratch.data, warm[i])
+			} else if i >= n-tail {
+				c = vDrawCommandOfKind(rt, scratch.data, rapid.SampledFrom(inPlace).Draw(rt, "tailKind"))
 			} else {
 				c = vDrawCommand(rt, scratch.data)
 			}
@@ -109,6 +117,9 @@ func TestVerifC19MetaStore(t *testing.T) {
 			if _, p := vApply(r, uint64(i+2), b); p != nil {
 				fail(fmt.Sprintf("Apply panicked: %v", p))
 				break
+			}
+			if i%3 == 0 {
+				runtime.Gosched() // let the readers and snapshotters see intermediate states
 			}
 		}
 		close(stop)
